@@ -85,6 +85,34 @@ def extra_seeds_for(cls):
 INFLATED_SEEDS = 4
 
 
+def header_block_seeds(already):
+    """Header blocks made of the unit-test lines of every header field class (one line per block, and all of them in
+    one block): what a field parser accepts alone reaches the block parser, which composes every item it has parsed."""
+    from cryptoparser.httpx.header import HttpHeaderFieldParsedBase  # pylint: disable=import-outside-toplevel
+    lines = []
+    for cls in lib.concrete_classes():
+        if issubclass(cls, HttpHeaderFieldParsedBase):
+            for seed in seeds.seeds_for(cls)[:3]:
+                line = seed.split(b'\r\n')[0]
+                if b': ' in line and lib.call(cls.parse_immutable, line + b'\r\n').ok and line not in lines:
+                    lines.append(line)
+    # and "Name: value" lines made of the unit-test inputs of the value classes (most vectors exist for these)
+    try:
+        from vf.gen import textgen  # pylint: disable=import-outside-toplevel
+        for info in textgen.TYPES.values():
+            if not info.header:
+                continue
+            value_class = lib.resolve(info[2])
+            for seed in [b for b in seeds.seeds_for(value_class) if lib.call(value_class.parse_exact_size, b).ok][:6]:
+                line = info.header.encode('ascii') + b': ' + seed
+                if b'\r' not in line and b'\n' not in line and line not in lines:
+                    lines.append(line)
+    except ImportError:
+        pass
+    blocks = [line + b'\r\n\r\n' for line in lines] + [b'\r\n'.join(lines[:40]) + b'\r\n\r\n']
+    return [block for block in blocks if block not in already]
+
+
 def numeric_fields(cls, seed):
     """[(offset, width)] of the fixed-width quantities the parser reads from an accepted seed: cutting the seed at the
     offset is answered with NotEnoughData(width), one byte later with width - 1 (same detector as C19's probes)."""
@@ -113,6 +141,8 @@ def _shard(arg):
         base = list(seeds.seeds_for(target.seeds_class)) if target.seeds_class is not None else []
         if target.is_class:
             base += [b for b in extra_seeds_for(target.cls) if b not in base]
+        if target.is_class and target.cls.__name__ == 'HttpHeaderFields':
+            base += header_block_seeds(base)
         if target.seed_transform is not None:
             base = sorted({target.seed_transform(b) for b in base}, key=lambda b: (len(b), b))
         accepted = {}
@@ -132,7 +162,8 @@ def _shard(arg):
                 _evaluate(stats, target, 'immutable', prefix, 'prefix', accepted[seed])
         # 1b. inflated variants of the accepted seeds (extreme numbers, long labels, deep nesting, calendar edges)
         #     and extreme values in every fixed-width numeric field the parser reads
-        for seed in [s for s in base if accepted[s]][:INFLATED_SEEDS]:
+        inflate_count = 80 if target.is_class and target.cls.__name__ == 'HttpHeaderFields' else INFLATED_SEEDS
+        for seed in [s for s in base if accepted[s]][:inflate_count]:
             for name, data in mutate.inflations(seed):
                 _evaluate(stats, target, 'immutable', data, 'inflated:' + name.split('-')[0], True)
             if target.is_class and not mutate.looks_textual(seed) and len(seed) <= 1500:
